@@ -4,7 +4,8 @@
    with reference functions written independently of the model (ref_* below). *)
 From Coq Require Import List ZArith Bool String Ascii.
 From Coq Require DecimalString.
-From IB Require Import Util.J Ckpt.Bincode Ckpt.Store.
+From Coq Require Import Uint63.
+From IB Require Import Util.J Ckpt.Bincode Ckpt.Store Ckpt.Sha256.
 Import ListNotations.
 Open Scope Z_scope.
 
@@ -56,10 +57,6 @@ Definition dec_names (j : J) : option (list bytes) :=
 
 Definition tab_find (tab : list (bytes * bytes)) (x : bytes) : option bytes :=
   match find (fun e => bytes_eqb (fst e) x) tab with Some e => Some (snd e) | None => None end.
-(* H of the model, instantiated by the table of real SHA-256 values *)
-Definition H_tab (tab : list (bytes * bytes)) (x : bytes) : bytes :=
-  match tab_find tab x with Some d => d | None => [] end.
-
 Definition state_eqb (a b : cstate) : bool :=
   bytes_eqb (pipeline_id a) (pipeline_id b) && (completed_node_index a =? completed_node_index b)
   && (timestamp a =? timestamp b) && (partition_count a =? partition_count b)
@@ -174,17 +171,24 @@ Definition ref_latest_ok (enabled : bool) (pid : bytes) (cur : list bytes) (o : 
 (* ------------------------------------------------------------------ kinds rt / load *)
 Definition sorted_readdir (d : dir) : list name := bsort (dir_names d).
 
+(* every table entry (string, digest) was produced by the REAL compute_checksum: it must be the
+   model's SHA-256 of that string *)
+Definition table_ok (tab : list (bytes * bytes)) : bool :=
+  forallb (fun e => bytes_eqb (sha256 (fst e)) (snd e)) tab.
+(* reference checksum of a state's protected fields: FIPS one-shot SHA-256 of the reference
+   metadata string, reference hex *)
+Definition ref_seal (s : cstate) : bytes := ref_hex (sha256_spec (ref_meta s)).
+
 Definition check_rt (jf jt out : J) : verdict :=
   match out with
   | JL [jo; jimg] =>
   match dec_fields jf, dec_table jt, dec_obs jo with
   | Some s, Some tab, Some o =>
       match tab_find tab (meta_str s), tab_find tab (ref_meta s) with
-      | Some _, Some dg =>
-          let H := H_tab tab in
+      | Some _, Some _ =>
           let '(r, d) := save sorted_readdir None [] s in
           let m := match r with
-                   | Ok n => load H corr_avail d n
+                   | Ok n => load sha256 corr_avail d n
                    | Err e => Err e
                    | Abort => Abort
                    end in
@@ -198,7 +202,7 @@ Definition check_rt (jf jt out : J) : verdict :=
                           | _, JN => true
                           | _, _ => false
                           end in
-          let sealed := bytes_eqb (checksum s) (ref_hex dg) in
+          let sealed := bytes_eqb (checksum s) (ref_seal s) in
           let creatable := ref_creatable (ref_name (pipeline_id s) (timestamp s)) in
           let prop := match o with
                       | OOk s' => creatable && sealed && state_eqb s s'
@@ -207,7 +211,7 @@ Definition check_rt (jf jt out : J) : verdict :=
                                   else false
                       | OCrash => false
                       end in
-          ok_verdict (agree_load o m && image_ok) prop
+          ok_verdict (agree_load o m && image_ok && table_ok tab) prop
       | _, _ => malformed
       end
   | _, _, _ => malformed
@@ -218,27 +222,163 @@ Definition check_rt (jf jt out : J) : verdict :=
 Definition check_load (jb jt out : J) : verdict :=
   match jbytes jb, dec_table jt, dec_obs out with
   | Some b, Some tab, Some o =>
-      let H := H_tab tab in
-      (* the table must cover what the model asks H for *)
-      let covered := match decode (Some ckpt_limit) corr_avail b with
-                     | DOk s => match tab_find tab (meta_str s) with Some _ => true | None => false end
-                     | _ => true
-                     end in
-      if covered then
-        let m := load_bytes H corr_avail b in
-        let prop := match o with
+      let m := load_bytes sha256 corr_avail b in
+      let prop := match o with
+                  | OOk s' =>
+                      (* what was accepted carries the checksum of its own protected fields *)
+                      bytes_eqb (checksum s') (ref_seal s')
+                  | OErr _ => true
+                  | OCrash => false
+                  end in
+      ok_verdict (agree_load o m && table_ok tab) prop
+  | _, _, _ => malformed
+  end.
+
+(* ------------------------------------------------------------------ compact data *)
+(* byte strings too long to be written out are described by a generator both sides run:
+     ["gen", seed, len]     len bytes of a 63-bit LCG (bits 32..39 of every state)
+     ["rep", unit, count]   `unit` repeated `count` times
+     ["ids", seed, len]     len characters of the 32-letter alphabet below, chosen by the same LCG
+     a JSON string / {"bytes": ..}   the bytes themselves *)
+Definition lcg (x : Uint63.int) : Uint63.int :=
+  Uint63.add (Uint63.mul x 6364136223846793005%uint63) 1442695040888963407%uint63.
+Fixpoint gen_bytes (n : nat) (x : Uint63.int) : bytes :=
+  match n with
+  | O => []
+  | S k => let x' := lcg x in
+           Uint63.to_Z (Uint63.land (Uint63.lsr x' 32%uint63) 255%uint63) :: gen_bytes k x'
+  end.
+Definition id_alphabet : bytes := string_bytes "abcdefghijklmnopqrstuvwxyz012:_9".
+Definition dec_data (j : J) : option bytes :=
+  match j with
+  | JL [t; JI seed; JI len] =>
+      if jtag_is "gen" t then Some (gen_bytes (Z.to_nat len) (Uint63.of_Z seed))
+      else if jtag_is "ids" t then
+        Some (map (fun b => nth (Z.to_nat (Z.land b 31)) id_alphabet 0)
+                  (gen_bytes (Z.to_nat len) (Uint63.of_Z seed)))
+      else None
+  | JL [t; ju; JI count] =>
+      if jtag_is "rep" t then
+        match jbytes ju with
+        | Some u => Some (List.concat (repeat u (Z.to_nat count)))
+        | None => None
+        end
+      else None
+  | _ => jbytes j
+  end.
+
+(* ------------------------------------------------------------------ kind sum *)
+(* in = data, out = [compute_checksum(data), compute_checksum(data) again] *)
+Definition check_sum (input out : J) : verdict :=
+  match dec_data input, out with
+  | Some d, JL [j1; j2] =>
+      match jbytes j1, jbytes j2 with
+      | Some h1, Some h2 =>
+          let m := compute_checksum sha256 d in
+          let r := ref_hex (sha256_spec d) in
+          ok_verdict (bytes_eqb h1 m && bytes_eqb h2 m) (bytes_eqb h1 r && bytes_eqb h2 r)
+      | _, _ => malformed
+      end
+  | _, _ => malformed
+  end.
+
+(* ------------------------------------------------------------------ kind tamper *)
+(* in = [[pid, cni, ts, pc, checksum, exec_mode, total_nodes, last_node_type, progress], ops]
+   (pid as compact data); the file is the encoding of that state; every op is applied to the
+   pristine file on its own and the result loaded:
+     ["x", off, mask]        byte at off xor mask
+     ["s", off, del, ins]    del bytes at off replaced by the bytes ins
+     ["t", k]                the first k bytes only
+   out = one load outcome per op; in an "ok" outcome the pipeline id / checksum are null when
+   they equal the input's. *)
+Inductive top : Type := TX (off mask : Z) | TS (off del : Z) (ins : bytes) | TT (k : Z).
+Definition dec_top (j : J) : option top :=
+  match j with
+  | JL [t; JI a; JI b] => if jtag_is "x" t then Some (TX a b) else None
+  | JL [t; JI a; JI b; ji] =>
+      if jtag_is "s" t then match dec_data ji with Some i => Some (TS a b i) | None => None end
+      else None
+  | JL [t; JI k] => if jtag_is "t" t then Some (TT k) else None
+  | _ => None
+  end.
+Definition apply_top (img : bytes) (op : top) : option bytes :=
+  let n := Z.of_nat (List.length img) in
+  match op with
+  | TX off mask =>
+      if (0 <=? off) && (off <? n) then
+        Some (firstn (Z.to_nat off) img ++ Z.lxor (nth (Z.to_nat off) img 0) mask
+                     :: skipn (Z.to_nat (off + 1)) img)
+      else None
+  | TS off del ins =>
+      if (0 <=? off) && (0 <=? del) && (off + del <=? n) then
+        Some (firstn (Z.to_nat off) img ++ ins ++ skipn (Z.to_nat (off + del)) img)
+      else None
+  | TT k => if (0 <=? k) && (k <=? n) then Some (firstn (Z.to_nat k) img) else None
+  end.
+
+Definition dec_fields_data (j : J) : option cstate :=
+  match j with
+  | JL [jp; JI cni; JI ts; JI pc; jc; je; JI tn; jl; JI pp] =>
+      match dec_data jp, jbytes jc, jbytes je, jbytes jl with
+      | Some p, Some c, Some e, Some l => Some (mk_cstate p cni ts pc c e (mk_cmeta tn l pp))
+      | _, _, _, _ => None
+      end
+  | _ => None
+  end.
+(* an observed outcome whose id / checksum may be abbreviated by null = "as in the input" *)
+Definition dec_obs_abbrev (s0 : cstate) (j : J) : option obs :=
+  match j with
+  | JL [t; JL [jp; JI cni; JI ts; JI pc; jc; je; JI tn; jl; JI pp]] =>
+      if jtag_is "ok" t then
+        let p := match jp with JN => Some (pipeline_id s0) | _ => jbytes jp end in
+        let c := match jc with JN => Some (checksum s0) | _ => jbytes jc end in
+        match p, c, jbytes je, jbytes jl with
+        | Some p, Some c, Some e, Some l => Some (OOk (mk_cstate p cni ts pc c e (mk_cmeta tn l pp)))
+        | _, _, _, _ => None
+        end
+      else None
+  | _ => dec_obs j
+  end.
+
+Definition protected_eqb (a b : cstate) : bool :=
+  bytes_eqb (pipeline_id a) (pipeline_id b) && (completed_node_index a =? completed_node_index b)
+  && (timestamp a =? timestamp b) && (partition_count a =? partition_count b).
+
+Fixpoint run_tamper (s0 : cstate) (img : bytes) (ops : list top) (outs : list J) : option (bool * bool) :=
+  match ops, outs with
+  | [], [] => Some (true, true)
+  | op :: ops', jo :: outs' =>
+      match apply_top img op, dec_obs_abbrev s0 jo, run_tamper s0 img ops' outs' with
+      | Some b, Some o, Some (a, p) =>
+          let m := load_bytes sha256 corr_avail b in
+          let pr := match o with
                     | OOk s' =>
-                        (* what was accepted carries the checksum of its own protected fields *)
-                        match tab_find tab (ref_meta s') with
-                        | Some dg => bytes_eqb (checksum s') (ref_hex dg)
-                        | None => false
-                        end
+                        (* accepted => sealed with the true SHA-256 of its own protected fields,
+                           and a file that still carries the original checksum has the original
+                           protected fields *)
+                        bytes_eqb (checksum s') (ref_seal s')
+                        && (negb (bytes_eqb (checksum s') (checksum s0)) || protected_eqb s' s0)
                     | OErr _ => true
                     | OCrash => false
                     end in
-        ok_verdict (agree_load o m) prop
-      else malformed
-  | _, _, _ => malformed
+          Some (agree_load o m && a, pr && p)
+      | _, _, _ => None
+      end
+  | _, _ => None
+  end.
+
+Definition check_tamper (input out : J) : verdict :=
+  match input, out with
+  | JL [jf; JL jops], JL outs =>
+      match dec_fields_data jf, omap dec_top jops with
+      | Some s0, Some ops =>
+          match run_tamper s0 (encode s0) ops outs with
+          | Some (a, p) => ok_verdict a p
+          | None => malformed
+          end
+      | _, _ => malformed
+      end
+  | _, _ => malformed
   end.
 
 (* ------------------------------------------------------------------ kind hist *)
@@ -385,4 +525,6 @@ Definition check_C12 (kind : string) (input output : J) : verdict :=
     match input with JL [jb; jt] => check_load jb jt output | _ => malformed end
   else if String.eqb kind "hist" then check_hist input output
   else if String.eqb kind "should" then check_should input output
+  else if String.eqb kind "sum" then check_sum input output
+  else if String.eqb kind "tamper" then check_tamper input output
   else malformed.
